@@ -17,6 +17,7 @@ CLAUSES = {
     "B.update.effect": "update on a non-active vector changes nothing and returns None; on an active one moves it to old and adds exactly the admissible forward neighbours; returns their dimensions",
     "B.init.closed_form": "non-adaptive closed-form scheme == freshly initialised adaptive scheme as a multiset of (levelvector, coefficient)",
     "B.init.fresh": "init_adaptive_combi_scheme on a USED object (after updates, after init_full_grid, same or different levels) establishes exactly the state of a fresh object",
+    "B.init.refusal": "an initialisation request with an invalid level range (lmax < lmin or lmin < 0) raises AssertionError and leaves a used object exactly as it was",
     "B.scheme.ownership": "component grids returned by getCombiScheme are fresh objects: mutating a returned scheme changes neither a later getCombiScheme of the same object nor of another CombiScheme",
     "B.api.queries": "is_refinable / in_index_set / is_old_index / has_forward_neighbour / get_index_set / get_active_indices agree with the sets",
 }
@@ -87,6 +88,21 @@ def check_reinit(ctx, cs, d, lmin, lmax):
     site = "sparseSpACE.combiScheme:CombiScheme.init_adaptive_combi_scheme"
     fresh = CombiScheme(d)
     fresh.init_adaptive_combi_scheme(lmax, lmin)
+    # requests the function refuses (invalid level range) leave the used object as it was: its state stays the valid scheme it held
+    before = state_of(cs)
+    for (rmax, rmin) in ((lmin - 1, lmin), (lmax, -1), (0, lmax + 1), (-1, -2)):
+        if rmax >= rmin >= 0:
+            continue
+        for fn in (cs.init_adaptive_combi_scheme, cs.init_full_grid):
+            try:
+                fn(rmax, rmin)
+                refused = False
+            except AssertionError:
+                refused = True
+            ctx.check("B.init.refusal", refused and state_of(cs) == before, site, "refused-request",
+                      "%s(lmax=%d, lmin=%d) on a used scheme: refused=%s, state before %s, after %s" % (fn.__name__, rmax, rmin, refused, before[2:], state_of(cs)[2:]))
+            if state_of(cs) != before:
+                return
     cs.init_adaptive_combi_scheme(lmax, lmin)                      # same levels on the used object
     ctx.check("B.init.fresh", state_of(cs) == state_of(fresh), site, "reinit-same-levels", "re-initialised %s vs fresh %s" % (state_of(cs), state_of(fresh)))
     cs.init_full_grid(lmax, lmin)
